@@ -68,6 +68,15 @@ Theorem C02_path_walk_is_tree_walk : forall upper V s parts,
 Proof. exact FatVol.ProofsDots.resolved_refines. Qed.
 Print Assumptions C02_path_walk_is_tree_walk.
 
+(* the file served for "overlays/../config.txt" is the file at "config.txt": what a dotted path reaches is what its
+   dot-free normal form reaches in the tree of the volume *)
+Theorem C02_served_path_is_its_normal_form : forall upper V s parts r,
+  FatVol.ProofsInv.VolInv upper V s -> FatVol.ProofsWalk.tilde_free upper parts ->
+  FatVol.Model.resolved upper s parts = Ok r -> r <> FatVol.Model.RNone ->
+  FatVol.Spec.twalk upper (FatVol.Spec.abs_tree s) (FatVol.Spec.lexnorm upper [] parts) = Ok (Some (FatVol.ProofsWalk.cur_node s r)).
+Proof. exact FatVol.ProofsDots.resolved_is_normalised_path. Qed.
+Print Assumptions C02_served_path_is_its_normal_form.
+
 (* ".." from the root leads nowhere: the root directory holds no dot entries (unless an entry is
    literally called ".." -- which no creating call stores, C11_dot_names_rejected) *)
 Theorem C02_dotdot_at_root_is_a_plain_lookup : forall upper ch h r,
